@@ -330,6 +330,32 @@ def run_case(ck, desc):
         if abs(float(obj3.m_scaled_func(p_other)) - float(obj3.m_i)) > 1e-15 * abs(float(obj3.m_i)):
             ck.violation("m_scaled_func(p_i)=m_i", {"re-wrapped": True}, desc)
         ck.count("tables_rewrapped")
+    if branch == "long" and n_rows >= 5 and int(desc["u"][3] * 1000) % 8 == 0:
+        # four wrappers built and queried from four threads at once, each on its own copy of the
+        # table with its own initial pressure: same transform and lookups as when built alone
+        import functools
+
+        def _wrap(tb, pi_):
+            with warnings.catch_warnings():
+                warnings.simplefilter("ignore")
+                o_ = FlowProperties(tb, pi_)
+            ms_ = np.asarray(o_.pvt_props["m-scaled"], dtype=float)
+            return np.concatenate([ms_, np.asarray(o_.alpha(ms_), dtype=float), [float(o_.m_i)]])
+
+        ps_ = np.sort(p)
+        groups = []
+        for k in range(4):
+            tb = {c: np.array(tab[c], dtype=float, copy=True) for c in ("pressure", "pseudopressure", "compressibility", "viscosity", "z-factor")}
+            tb["viscosity"] = tb["viscosity"] * (1 + 0.1 * k)
+            groups.append([functools.partial(_wrap, tb, float(ps_[min(len(ps_) - 1, 1 + k)]))] * 8)
+        bad, errs, n_calls = instrument.concurrent_vs_alone(groups)
+        LOG.clear()
+        ck.count("concurrent_evaluations", n_calls)
+        ck.count("thread_groups")
+        for k_, i_, a, b in bad[:3]:
+            ck.violation("threads-same-value-as-the-call-made-alone", {"thread": k_, "n_differing": len(bad)}, desc)
+        if any(e[0] < 0 for e in errs):
+            ck.violation("threads-every-call-returns", {"errors": [e[2] for e in errs[:3]]}, desc)
     ck.count(f"constructed.{branch}.{desc['as']}.{where}")
     return n_rows >= 2, {"rows": n_rows, "m_i": m_i, "p_i": p_i, "where": where}
 
